@@ -91,7 +91,7 @@ def q12d(grid, spacing=None, E=1e5, nu=0.3, dirichlet_boundary=True,
     vertices = np.array([[0, 0], [DX, 0], [DX, DY], [0, DY]])
     K = q12d_local(vertices, lame, mu)
 
-    nodes = np.arange((X+1)*(Y+1), dtype=np.int32).reshape(X+1, Y+1)
+    nodes = np.arange((X+1)*(Y+1), dtype=np.int32).reshape(Y+1, X+1)
     LL = nodes[:-1, :-1]
     Id = (2*LL).repeat(K.size).reshape(-1, 8, 8)
     J = Id.copy()
@@ -116,7 +116,7 @@ def q12d(grid, spacing=None, E=1e5, nu=0.3, dirichlet_boundary=True,
     B[1::2, 2] = pts[:, 0]
 
     if dirichlet_boundary:
-        mask = np.zeros((X+1, Y+1), dtype='bool')
+        mask = np.zeros((Y+1, X+1), dtype='bool')
         mask[1:-1, 1:-1] = True
         mask = np.ravel(mask)
         data = np.zeros(((X-1)*(Y-1), 2, 2))
